@@ -380,7 +380,7 @@ class Program:
                     from . import recover as _rec
                     if not _rec.usable_in(rn, m.tree, rtree):
                         continue
-                cbody[ci] = rn
+                cbody[[id(x) for x in cbody].index(id(cn))] = rn          # (by identity: re-imported names may have shifted the positions)
                 m.gated.append(q)
 
     def _same_with_helpers(self, m, rtree, q, cn, rn, hc, hr):
